@@ -135,6 +135,36 @@ def _cases_core(rng, tier):
         a, _k = node_spec(rng, prv=True)
         b = a if rng.random() < 0.5 else node_spec(rng, prv=True)[0]
         yield "node_eq %s %s" % (a, b), "node-eq"
+    # a valid extended key with one line terminator / blank / control / invisible character in front of it or behind it
+    for name in (["xprv", "vpub"] if tier == "quick" else list(ALL)):
+        prv = name.endswith("prv")
+        k = rand_scalar(rng)
+        key33 = (b"\x00" + k.to_bytes(32, "big")) if prv else pub_sec(k)
+        good = b58check_enc(payload(ALL[name], 0, bytes(4), 0, bytes(range(32)), key33))
+        for bad_s in common.edge_variants(good):
+            yield "xk_parse %s 0 s %s" % ("P" if prv else "p", sx(bad_s)), "edge-character-parse"
+            yield "wallet xkey:%s" % sx(bad_s), "edge-character-wallet"
+    # helper interleaving: the public helpers of the version table are asked about UNKNOWN versions before (and after)
+    # a wallet is requested from a key carrying that version — asking a question must not teach the table anything
+    for _ in range(6 if tier == "quick" else 100):
+        base = rng.choice(list(ALL.values()))
+        bad = rng.choice([base ^ (1 << rng.randrange(32)), base + rng.choice([-1, 1, 2]), rng.getrandbits(32), 0, 2 ** 32 - 1])
+        if bad in ALL.values() or not 0 <= bad < 2 ** 32:
+            continue
+        k = rand_scalar(rng)
+        for key33 in (b"\x00" + k.to_bytes(32, "big"), pub_sec(k)):
+            xk = b58check_enc(payload(bad, 0, bytes(4), 0, bytes(range(32)), key33))
+            yield "wallet xkey:%s" % sx(xk), "helper-interleaving-before"
+            order = ["ver_bip %d" % bad, "ver_valid %d" % bad, "ver_parse %d" % bad]
+            rng.shuffle(order)
+            for o in order:
+                yield o, "helper-interleaving-helper"
+            yield "wallet xkey:%s" % sx(xk), "helper-interleaving-after"
+            yield "ver_valid %d" % bad, "helper-interleaving-helper"
+            yield "ver_parse %d" % bad, "helper-interleaving-helper"
+        good_v = rng.choice(list(ALL.values()))
+        yield "ver_valid %d" % good_v, "helper-known-version"
+        yield "ver_parse %d" % good_v, "helper-known-version"
 
 
 def nontrivial(line, out):
@@ -188,7 +218,13 @@ def oracle(line, out):
         return None
     if op == "xk_parse":
         cls, t, form, data = tok[1:5]
-        pl = b58check_dec(unstr(data)) if form == "s" else unhex(data)
+        if form == "s":
+            try:
+                pl = b58check_dec(unstr(data))
+            except ValueError:
+                return None if v is None else "extended key text with foreign characters / a wrong checksum was parsed"
+        else:
+            pl = unhex(data)
         if form.startswith("io@"):
             pl = pl[int(form[3:]):]
         if v is None:
@@ -218,6 +254,16 @@ def oracle(line, out):
                 or f[9] != ("1" if testnet else "0"):
             return "version prefix %s did not determine key type / network: %s" % (names[0], v[:40])
         return None
+    if op in ("ver_valid", "ver_parse"):
+        ver = int(tok[1])
+        names = [n for n, x in ALL.items() if x == ver]
+        if op == "ver_valid":
+            return None if v == ("1" if names else "0") else "valid_version(0x%08x) says %s" % (ver, v)
+        if not names:
+            return None if v is None else "Version.parse accepted the unknown version 0x%08x" % ver
+        want = "%d %d %s" % (0 if names[0].endswith("prv") else 1, {"x": 0, "t": 0, "y": 1, "u": 1, "z": 2, "v": 2}[names[0][0]],
+                             "1" if names[0] in VERS_TEST else "0")
+        return None if v == want else "Version.parse(%s) gives %s, expected %s" % (names[0], v, want)
     if op == "node_eq":
         a, b = tok[1], tok[2]
         fa, fb = a.split(":"), b.split(":")
